@@ -5,14 +5,15 @@ class P(vlib.Prop):
     rule = ("stage multiarch: the real multi-architecture entry point (build.NewMultiArch + BuildPackageLists, i.e. APK.ResolveWorld with its ByArch siblings) on families of "
             "per-architecture repositories that drifted apart (2-4 of amd64, arm64, arm/v7, arm/v6, riscv64, s390x; newest version missing somewhere, newer build only here, package only here), "
             "reached as local directories, over HTTP with an ETag and over HTTP without one; every architecture's install list is judged by the verified validator foreign_check. "
-            "stage c14: corpus first (C14-F1 replay, newer build on one architecture only, a package missing three dependency levels deep over three architectures, "
-            "a provider available on one side only, single architecture), then families of per-architecture universes: a generated base universe (as in C02's "
+            "stage c14: corpus first (C14-F1 replay, also through a chain of install_if packages, newer build on one architecture only, a package missing three dependency levels deep over three architectures, "
+            "a provider available on one side only, single architecture with and without install_if additions), then families of per-architecture universes: a generated base universe (as in C02's "
             "general stream; a quarter with install_if packages; a third with an explicit dependency chain c0 -> ... -> cN, N = 2..4, whose newest LEAF is missing on "
             "the second architecture) cloned for 2-3 architectures and drifted apart by 1-3 mutations each (version missing, newer build only here, rebuilt under "
             "another version, different provides, package that exists only here — as a dependency or as an install_if package); three worlds per family, each resolved "
             "on EVERY architecture by the real GetPackagesWithDependencies(allArchs = all architectures); plus single-architecture universes resolved with "
-            "allArchs = {arch} and with allArchs = nil. In Coq: the model gets its own disqualify_difference as initial set and must reproduce each ordered install "
-            "list; foreign_check (verified) runs on the IMPLEMENTATION's lists; for single-architecture cases the two observed answers must be equal. Non-trivial = "
+            "allArchs = {arch} and with allArchs = nil. In Coq: the model gets its own disqualify_difference as initial set and must EQUAL each ordered install "
+            "list (install_if additions included: the loop is deterministic since fix c03e0c0; universes with install_if are resolved four more times and must repeat); "
+            "foreign_check (verified) runs on the IMPLEMENTATION's lists; for single-architecture cases both observed answers must equal the plain model. Non-trivial = "
             "some run installs two or more packages; distinct = distinct case terms.")
     stages = (
         dict(name="c14", cmd="c02", args=lambda t, s: ["-stage", "c14"]),
@@ -27,7 +28,7 @@ class P(vlib.Prop):
     )
     level_text = ("c14_dq_complete (disqualify_difference marks exactly the packages whose name+version another architecture lacks), c14_filtered_members (a member inside the "
                   "initial set can only be an install_if package), c14_no_foreign_version_partial (no install_if in the universe => no member is missing elsewhere) and "
-                  "c14_single_arch_unaffected hold for all per-architecture universes, worlds and schedules (unbounded); c14_no_foreign_version is REFUTED by a kernel-checked "
+                  "c14_single_arch_unaffected hold for all per-architecture universes and worlds (unbounded); c14_no_foreign_version is REFUTED by a kernel-checked "
                   "witness (finding C14-F1, replayed on the real code); the model is tied to the code by differential comparison over generated families of diverging universes.")
     level_note = ("trusted: Coq kernel, goextract, Go harness/printer; modelled not verified: the Go text of disqualifyDifference and of the resolver; the caches and the "
                   "MultiArch wiring are outside this check; correspondence is differential testing, not proof")
